@@ -31,6 +31,7 @@ type vfC12Case struct {
 	Root    string `json:"root"`
 	Path    string `json:"path"`
 	Padding bool   `json:"padding"`
+	After   bool   `json:"padding_after,omitempty"`
 	Variant string `json:"variant"`
 }
 
@@ -154,13 +155,13 @@ func TestVerifC12(t *testing.T) {
 				hasEventList = true
 			}
 		}
-		for _, pad := range []bool{false, true} {
-			if pad && !hasEventList {
+		for _, pad := range []string{"", "skippable-event-before", "skippable-event-after"} {
+			if pad != "" && !hasEventList {
 				continue
 			}
-			msg := vfBuildAt(j.root, j.path, value, pad)
-			c := vfC12Case{Root: j.root.String(), Path: j.path.String(), Padding: pad, Variant: "single-path"}
-			vfC12Check(res, tr, j.root, msg, sig, fmt.Sprintf("path %s (padding=%v)", j.path, pad), c, st)
+			msg := vfBuildAtPadded(j.root, j.path, value, pad)
+			c := vfC12Case{Root: j.root.String(), Path: j.path.String(), Padding: pad != "", After: pad == "skippable-event-after", Variant: "single-path"}
+			vfC12Check(res, tr, j.root, msg, sig, fmt.Sprintf("path %s (padding=%q)", j.path, pad), c, st)
 		}
 	})
 	// all at once: fully populated message per root, through the public interface and through the interceptor
